@@ -293,6 +293,31 @@ void run_sweep(Stats& st) {
 		vol_path(in, ref);
 		account(st, ref, lenHist, distHist, "sweep-capacity", which);
 	}
+	// token streams that cross capacity with a DOMINANT symbol (one leaf directly under the root, one-bit code) - every shape of the tree at the
+	// moment of the 65222nd update must end in the same error: one literal only; a dominant literal with another every 7th / 50th / 1000th code,
+	// the crossing code being the dominant or the other one; one match code only; two alternating symbols
+	for (unsigned shape = 0; shape < 9; ++shape) {
+		if (!sw("capacity_tokens", shape)) continue;
+		std::vector<reflzh::Token> toks;
+		for (unsigned i = 0; i < 65400; ++i) {
+			reflzh::Token k{}; k.match = false; k.lit = 'A';
+			if (shape == 1 && i % 7 == 3) k.lit = 'z';
+			if (shape == 2 && i % 50 == 21) k.lit = uint8_t(i / 50);      // the code that crosses (index 65221 = 50*1304+21) is a rare one
+			if (shape == 3 && i % 1000 == 221) k.lit = 0;                  // ditto
+			if (shape == 4 && i % 1000 == 220) k.lit = 0;                  // the crossing code is the dominant one, a rare one just before it
+			if (shape == 5 && i > 0) { k.match = true; k.len = 3; k.dist = 1; }
+			if (shape == 6 && i > 0) { k.match = true; k.len = 60; k.dist = 1 + i % 3; }
+			if (shape == 7) k.lit = i % 2 ? 'A' : 'B';
+			if (shape == 8 && i >= 40000) k.lit = uint8_t(i);                // a long dominant phase, then cold symbols up to the crossing
+			toks.push_back(k);
+		}
+		std::vector<uint8_t> payload; auto in = reflzh::encode(toks, payload);
+		auto ref = reflzh::decode(in, lenHist, distHist);
+		V_CHECK(ref.capacity, "harness: the directed token stream does not cross capacity");
+		st.cls("capacity_tokens:crosses");
+		compare(in, ref, Drain{0, {1}, {}}, "sweep-capacity-tokens"); compare(in, ref, Drain{0, {100000}, {}}, "sweep-capacity-tokens"); compare(in, ref, Drain{1, {4096}, {}}, "sweep-capacity-tokens");
+		vol_path(in, ref);
+	}
 	// just below capacity: exactly the last representable update succeeds
 	if (sw("capacity_edge")) {
 		std::vector<reflzh::Token> toks;
